@@ -1,0 +1,18 @@
+//go:build verif
+// +build verif
+
+package stringclassifier
+
+// Verification hooks (build tag "verif"): trace events at the lock operations and at the
+// accesses to the shared state of a Classifier. Off unless a test installs a sink.
+
+const verifOn = true
+
+// VerifSink receives the events; nil means tracing is off.
+var VerifSink func(ev string, kv ...interface{})
+
+func verifEmit(ev string, kv ...interface{}) {
+	if s := VerifSink; s != nil {
+		s(ev, kv...)
+	}
+}
